@@ -58,7 +58,7 @@ func checkDynamicNullability(c *core.Ctx) {
 		ids := typeIDs(c.Prog)
 		elemArg := -1
 		{
-			bi := &absint.Interp{Info: t.info, Prog: c.Prog}
+			bi := newLitInterp(c.Prog, t.info, "functions")
 			bi.Hooks.Loop = func(st *absint.State, loop ast.Stmt) *absint.LoopSpec {
 				return &absint.LoopSpec{Cases: []string{"e"}, MaxIter: 2, RefStep: func(ref, cs string) string { return ref }}
 			}
@@ -104,7 +104,7 @@ func checkDynamicNullability(c *core.Ctx) {
 		for _, sc := range scenarios {
 			sc := sc
 			elemPrefix := fmt.Sprintf("%s[%d]", pname, elemArg)
-			in := &absint.Interp{Info: t.info, Prog: c.Prog}
+			in := newLitInterp(c.Prog, t.info, "functions")
 			loopSeen := false
 			in.Hooks.Loop = func(st *absint.State, loop ast.Stmt) *absint.LoopSpec {
 				if sc == "any" {
